@@ -83,3 +83,25 @@ Theorem C12_reader_no_panic : forall ld j root levels bs, wf_store ld root level
      cstep (faulty_load ld j) root levels st o = Fail (EIo IO_INJECTED)).
 Proof. exact reader_fault_no_panic. Qed.
 Print Assumptions C12_reader_no_panic.
+
+(* ================= the merge function failing =================
+   mf_fail_at j mf fails its j-th call (calls are numbered by the call counter the merger and the sorter
+   thread through) with the merge error.  For ANY merge function, sources, sorter configuration and
+   state: a merge / a Sorter::insert that completes without the fault is unchanged when call j is not
+   among its calls, and returns exactly the merge error when it is *)
+From Grenad.model Require Import Sorter.
+From Grenad.proofs Require Import MergeFault.
+
+Theorem C12_merge_fault : forall mf j calls srcs out n, merge_run mf calls srcs = Done (out, n) ->
+  calls <= n /\
+  (j < calls \/ n <= j -> merge_run (mf_fail_at j mf) calls srcs = Done (out, n)) /\
+  (calls <= j < n -> merge_run (mf_fail_at j mf) calls srcs = Fail EMerge).
+Proof. exact merge_fault. Qed.
+Print Assumptions C12_merge_fault.
+
+Theorem C12_sorter_insert_fault : forall mf j c st k v st', s_insert c mf st k v = Done st' ->
+  ss_calls st <= ss_calls st' /\
+  (j < ss_calls st \/ ss_calls st' <= j -> s_insert c (mf_fail_at j mf) st k v = Done st') /\
+  (ss_calls st <= j < ss_calls st' -> s_insert c (mf_fail_at j mf) st k v = Fail EMerge).
+Proof. exact sorter_insert_fault. Qed.
+Print Assumptions C12_sorter_insert_fault.
